@@ -504,7 +504,21 @@ def renorm(v):
         return mk_not(v[1])
     if t == "sub":
         return mk_sub(v[1], v[2])
+    if t == "vcall":
+        return mk_vcall(v[1], v[2], v[3])
     return v
+
+
+def mk_vcall(target, args, kwargs):
+    """call of a value: a bound method becomes a method call, a dotted name a call by name"""
+    if target[0] == "attr":
+        return ("mcall", target[1], target[2], tuple(args), tuple(kwargs))
+    if target[0] == "sym":
+        head, _, meth = target[1].rpartition(".")
+        if head:
+            return ("mcall", ("sym", head), meth, tuple(args), tuple(kwargs))
+        return ("call", target[1], tuple(args), tuple(kwargs))
+    return ("vcall", target, tuple(args), tuple(kwargs))
 
 
 def mk_sub(base, key):
@@ -579,6 +593,9 @@ def show(v, top=True) -> str:
     if t == "mcall":
         a = [show(x) for x in v[3]] + [f"{k}={show(x)}" for k, x in v[4]]
         return f"{show(v[1])}.{v[2]}({', '.join(a)})"
+    if t == "vcall":
+        a = [show(x) for x in v[2]] + [f"{k}={show(x)}" for k, x in v[3]]
+        return f"({show(v[1])})({', '.join(a)})"
     if t == "attr":
         return f"{show(v[1])}.{v[2]}"
     if t == "sub":
@@ -1460,7 +1477,7 @@ class AV:
     def _call(self, n: ast.Call, fr: Frame):
         fn = n.func
         d_ = dotted(fn)
-        if d_ and (d_.startswith(IGNORED_CALLS) or d_ in ("print",)):
+        if d_ and (d_.startswith(("logger.", "logging.", "warnings.")) or d_ in ("print",)):
             return NONE
         args = []
         for a in n.args:
@@ -1487,6 +1504,11 @@ class AV:
                 tgt = self._name(fn.id, fr) if fn.id in self._module_env(fr.rel) else None
             if tgt is not None and tgt[0] == "fn":
                 return self._apply_closure(tgt[1], args, kwargs, fr)
+            if tgt is not None and fn.id in fr.env and tgt[0] in ("attr", "bv", "sub", "if") or (tgt is not None and fn.id in fr.env and tgt[0] == "sym" and tgt[1] != fn.id):
+                # a callable value held in a local (bound method, element of a sequence of callables)
+                v = mk_vcall(tgt, args, kwargs_t)
+                self.call_log.append((fr.func, n, v))
+                return v
         elif not isinstance(fn, ast.Attribute):
             tgt = self._ev(fn, fr)
             if tgt[0] == "fn":
@@ -1498,6 +1520,9 @@ class AV:
         if isinstance(fn, ast.Attribute) and isinstance(fn.value, ast.Name) and fn.value.id in fr.env and fn.attr in MUTATING:
             name = fn.value.id
             cur = fr.env[name]
+            if fn.attr == "pop" and not args and cur[0] == "comp":
+                fr.env[name] = ("slice", cur, NONE, C(-1))
+                return ("sub", cur, C(-1))
             if fn.attr == "pop" and not args and cur[0] == "list" and cur[1]:
                 last = cur[1][-1]
                 if last[0] not in ("spread", "when"):
